@@ -4,7 +4,7 @@ import struct
 from hypothesis import strategies as st
 
 from harness import build, gen, simnet, wire, refmodel, httpref, deflateref
-from harness.runner import Prop, Enumeration, held, failed
+from harness.runner import Prop, Enumeration, held, failed, after_every_prelude
 from props.c01 import effective_seg, compare_events
 
 VIOL_SENTINEL = b"<<VIOLATING-7f3a>>"
@@ -205,6 +205,8 @@ class C04(Prop):
             "viol": viol,
             "suffix": suffix,
             "seg": gen.segmentation(),
+            # an earlier connection in this process (same WebSocket object or another) and how it ended
+            "prelude": gen.prelude(),
             "deflate": st.sampled_from([0, 0, 1, 1, 2]),
             "client_closing": gen.weighted([(5, st.just(False)), (1, st.just(True))]),
         })
@@ -353,7 +355,12 @@ class C04(Prop):
                             yield {"hdr": [b0, b1], "ext": ext, "ctx": [deflate, inside]}
 
     def enumerations(self, tier):
-        return [Enumeration("all_65536_headers_x6_contexts", self.header_cases, exhaustive=True)]
+        text = {"kind": "text", "payload": ["str", "ok \u20ac"], "forms": [0]}
+        battery = [{"prefix": [text], "open": None, "viol": {"class": c, "a": 0, "b": 0, "wide": False}, "suffix": ["text"],
+                    "seg": "whole", "deflate": 0, "client_closing": False}
+                   for c in ("reserved_bits", "close_bad_utf8", "text_bad_utf8", "control_too_long", "expected_continuation")]
+        return [Enumeration("all_65536_headers_x6_contexts", self.header_cases, exhaustive=True),
+                after_every_prelude(battery)]
 
     def run_header(self, case):
         b0, b1 = case["hdr"]
